@@ -1279,6 +1279,8 @@ func faultsFor(proto string, op Op, res string) []string {
 		return []string{"get", "tp"}
 	case op.Kind == "msg":
 		return []string{"get", "put0", "put1", "send0", "send1"}
+	case op.Kind == "continuep" || op.Kind == "stopp":
+		return []string{"put0", "send0", "send1"}
 	default:
 		return []string{"put0", "put1", "put2", "send0", "send1", "send2"}
 	}
@@ -1343,9 +1345,9 @@ func explore(tr *hx.Trace, proto string, v3 bool, depth, threads, twoUntil, faul
 							continue
 						}
 
-						if proto == "intro" && !wo.NoTh && wo.Pth > 0 {
+						if proto == "intro" && wo.Pth > 0 && (!wo.NoTh || wo.IDT > 0) {
 							// introduce: the instance id stored with the THREAD's metadata takes precedence over a pthid
-							// (state-dependent, not modelled): pthid and thid are not combined
+							// (state-dependent, not modelled): a pthid is not combined with a thid or an id that names a thread
 							continue
 						}
 
@@ -1356,7 +1358,7 @@ func explore(tr *hx.Trace, proto string, v3 bool, depth, threads, twoUntil, faul
 				}
 
 				// every fault kind on this op (from this reached state); faulted histories are not expanded
-				if d < faultDepth && res != "reject" && res != "noevent" {
+				if d < faultDepth && (d < 2 || op.Kind != "msg") && res != "reject" && res != "noevent" {
 					for _, fl := range faultsFor(proto, op, res) {
 						fo := op
 						fo.Fault = fl
@@ -1439,7 +1441,7 @@ func randomCase(rng *hx.Rng, proto string, v3 bool, maxLen int) *Case {
 
 			if rng.Intn(4) == 0 {
 				vs := wireVariants(op)
-				if wo := vs[rng.Intn(len(vs))]; !(proto == "intro" && (!wo.NoTh && wo.Pth > 0 || wo.Out && wo.IDT == -1)) {
+				if wo := vs[rng.Intn(len(vs))]; !(proto == "intro" && (wo.Pth > 0 && (!wo.NoTh || wo.IDT > 0) || wo.Out && wo.IDT == -1)) {
 					op = wo
 				}
 			}
@@ -1553,7 +1555,7 @@ func main() {
 		}
 	}
 
-	depth, nRandom, maxLen, budget, twoUntil, faultDepth := 4, 500, 16, 1400, 2, 3
+	depth, nRandom, maxLen, budget, twoUntil, faultDepth := 4, 500, 16, 1000, 2, 3
 	if a.Tier == "thorough" {
 		depth, nRandom, maxLen, budget, twoUntil, faultDepth = 4, 4000, 24, 8000, 3, 4
 	}
